@@ -326,8 +326,17 @@ def run_impl(prop, cases, jobs=None, per_case_timeout=5):
                               cwd=VERIF, env=impl_env(), stdout=subprocess.DEVNULL, stderr=subprocess.PIPE, text=True)
         procs.append((pr, outp, len(ch)))
     results = [None] * len(cases)
+    # watchdog: a worker gets the time its cases could need if EVERY one of them ran into the per-case limit (the worker's own circuit
+    # breaker stops after three), plus start-up; a worker that hangs outside a case (import, impl_init) is killed and its cases count as died
+    budget = 120 + 4 * per_case_timeout + per * 0.05
+    t_end = time.time() + budget
     for k, (pr, outp, n) in enumerate(procs):
-        _, err = pr.communicate()
+        try:
+            _, err = pr.communicate(timeout=max(5.0, t_end - time.time()))
+        except subprocess.TimeoutExpired:
+            pr.kill()
+            _, err = pr.communicate()
+            err = (err or "") + "\n[killed by the harness watchdog after %.0f s]" % budget
         outs = []
         if outp.exists():
             for l in open(outp):
